@@ -64,22 +64,24 @@ class World:
         """LinearChecker(problem).get_fluents(fn) projected to names; exceptions are observations."""
         from unified_planning.model.walkers.linear_checker import LinearChecker
 
-        res = {"k": "ok", "lin": False, "pos": [], "neg": [], "exc": "", "snp": "-"}
+        # k: "ok" | "exc"; l: is_linear; p / n: positive / negative fluent names; x: exception class;
+        # s: problem.kind keeps SIMPLE_NUMERIC_PLANNING with `e <= 0` as a precondition ("-": not asked)
+        res = {"k": "ok", "l": False, "p": [], "n": [], "x": "", "s": "-"}
         try:
             with time_limit(5):
                 r = LinearChecker(self.problem).get_fluents(fn)
             lin, pos, neg = r
             if not isinstance(lin, bool):
                 raise TypeError("is_linear flag is not a bool")
-            res["lin"] = lin
-            res["pos"] = sorted(names(pos))
-            res["neg"] = sorted(names(neg))
+            res["l"] = lin
+            res["p"] = sorted(names(pos))
+            res["n"] = sorted(names(neg))
         except ImplTimeout:
             self.fresh()
-            return dict(res, k="exc", exc="NoReturnWithin5s")
+            return dict(res, k="exc", x="NoReturnWithin5s")
         except Exception as ex:
             self.fresh()
-            return dict(res, k="exc", exc=type(ex).__name__)
+            return dict(res, k="exc", x=type(ex).__name__)
         return res
 
     def kind_snp(self, fn):
@@ -211,14 +213,14 @@ def observe(ctx, cfgs, cases, kind_rate, first_id=0):
             pe = upj.p_expr(fn)
             res = w.analyse(fn)
             if res["k"] == "ok" and (size(e) <= 3 or ctx.rng.random() < kind_rate):
-                res["snp"] = w.kind_snp(fn)
+                res["s"] = w.kind_snp(fn)
                 st["kind"] += 1
-                st["kind_snp"] += res["snp"] == "T"
+                st["kind_snp"] += res["s"] == "T"
             if res["k"] == "exc":
                 st["exc"] += 1
-            elif res["lin"]:
+            elif res["l"]:
                 st["lin"] += 1
-                p, n = set(res["pos"]), set(res["neg"])
+                p, n = set(res["p"]), set(res["n"])
                 st["pos_only"] += bool(p - n)
                 st["neg_only"] += bool(n - p)
                 st["both"] += bool(p & n)
@@ -229,16 +231,39 @@ def observe(ctx, cfgs, cases, kind_rate, first_id=0):
     return obs, st, oid
 
 
+class NodeTable:
+    """hash-consed table of UPJ expression nodes (the judge rebuilds the expressions from it): the
+    JSON the judge has to parse is ~10x smaller than with nested expression records"""
+
+    def __init__(self):
+        self.rows = []
+        self.index = {}
+
+    def add(self, e):
+        args = [self.add(a) for a in e["args"]]
+        key = (e["op"], tuple(args), e["name"], repr(sorted(e["v"].items())))
+        if key not in self.index:
+            self.rows.append({"op": e["op"], "a": args, "name": e["name"], "v": e["v"]})
+            self.index[key] = len(self.rows)
+        return self.index[key]
+
+
+NCHUNKS = 64  # = LinearTrace!NChunks
+
+
 def judge(ctx, label, cfgs_path, obs, t1):
     """TLC judges the observations; returns {id: [(tag, a, b)]}"""
     d = ctx.sub("judge-" + label)
     path = os.path.join(d, "obs.ndjson")
-    tlc.write_ndjson(path, obs)
-    res = tlc.run_tlc("LinearTrace", TRACE_CFG, d, env={"CFGS": cfgs_path, "OBS": path, "T1": "1" if t1 else "0"}, timeout=3000)
+    npath = os.path.join(d, "nodes.ndjson")
+    table = NodeTable()
+    tlc.write_ndjson(path, [{"id": o["id"], "cfg": o["cfg"], "e": table.add(o["e"]), "res": o["res"]} for o in obs])
+    tlc.write_ndjson(npath, table.rows)
+    res = tlc.run_tlc("LinearTrace", TRACE_CFG, d, env={"CFGS": cfgs_path, "NODES": npath, "OBS": path, "T1": "1" if t1 else "0"}, timeout=3000)
     if res.error or res.violated:
         raise MachineryError("LinearTrace failed: %s %s" % (res.violated, res.error))
-    if res.distinct != 2 * len(obs):
-        raise MachineryError("judge consumed %d states, expected %d" % (res.distinct, 2 * len(obs)))
+    if res.distinct != NCHUNKS + len(obs):
+        raise MachineryError("judge consumed %d states, expected %d" % (res.distinct, NCHUNKS + len(obs)))
     ctx.add_tlc("judge-" + label, res)
     ctx.cov["traces_validated_against_impl"] += len(obs)
     out = {}
@@ -269,7 +294,7 @@ def report(ctx, cfgs, obs, verdicts, t1, tally):
                 else:
                     sig = "%s|%s" % (a, feat[0])
                     what = "get_fluents(%s) = (%s, %s, %s) with %s: clause %s%s" % (
-                        show(o["e"]), o["res"]["lin"], o["res"]["pos"], o["res"]["neg"], cfg["tag"], a, " for fluent " + b if b else "")
+                        show(o["e"]), o["res"]["l"], o["res"]["p"], o["res"]["n"], cfg["tag"], a, " for fluent " + b if b else "")
                     if a.startswith("kind-"):
                         what = "problem.kind keeps SIMPLE_NUMERIC_PLANNING with precondition %s <= 0 [%s]: %s" % (show(o["e"]), cfg["tag"], a)
                 ctx.violation(sig, what, {"cfg": cfg, "e": o["e"], "res": o["res"], "clause": a, "fluent": b, "feature": feat[0],
@@ -361,7 +386,7 @@ def _one(ctx, cfg, e):
         return None
     res = w.analyse(fn)
     if res["k"] == "ok":
-        res["snp"] = w.kind_snp(fn)
+        res["s"] = w.kind_snp(fn)
     return {"id": 1, "cfg": 1, "e": upj.p_expr(fn), "res": res}
 
 
@@ -391,7 +416,7 @@ def selftest(ctx):
     two = upj.E("const", v=upj.NV(2))
 
     def ob(i, e, lin, pos, neg, snp="-", k="ok", exc=""):
-        return {"id": i, "cfg": 1, "e": e, "res": {"k": k, "lin": lin, "pos": pos, "neg": neg, "exc": exc, "snp": snp}}
+        return {"id": i, "cfg": 1, "e": e, "res": {"k": k, "l": lin, "p": pos, "n": neg, "x": exc, "s": snp}}
 
     xq = upj.E("div", [X, Qp])
     obs = [
